@@ -4,14 +4,14 @@ open NgModel
 open Ngshared
 
 let run (id : string) (ops : string list) (out : out_channel) =
-  let raw = ref [] and ro = ref "000" and zc = ref false in
+  let raw = ref [] and rawhex = ref "" and ro = ref "000" and zc = ref false in
   let sizes = ref [] and fail = ref (-1) and gz = ref false and gzcut = ref false and nomodel = ref false in
   Stdlib.List.iter (fun op ->
     let name, arg = match String.index_opt op ':' with
       | Some i -> String.sub op 0 i, String.sub op (i + 1) (String.length op - i - 1)
       | None -> op, "" in
     match name with
-    | "raw" -> if String.length arg < 50000 then raw := bytes_of_hex arg
+    | "raw" -> rawhex := arg
     | "ro" -> ro := arg
     | "mode" -> zc := (arg = "zc")
     | "chunk" -> sizes := [int_of_string arg]
@@ -21,10 +21,12 @@ let run (id : string) (ops : string list) (out : out_channel) =
     | "gz" -> gz := true
     | "gzcut" -> gzcut := true
     | "nomodel" -> nomodel := true
+    | "cmpmodes" -> ()
     | "tag" -> ()
     | _ -> failwith ("c15ng op: " ^ op)) ops;
   let step = ref 0 in
   let emit s = Printf.fprintf out "%s\t%d\t%s\n" id !step s; incr step in
+  if not (!nomodel || !gzcut) then raw := bytes_of_hex !rawhex;
   if !nomodel then emit "nomodel"
   else if !gzcut then emit "gzcut"
   else begin
